@@ -304,7 +304,8 @@ def inject_pointless(rnd, prog):
         if rnd.random() < 0.1:
             # NOT pointless: a call hidden under unary / binary / group nodes has an effect
             side = gen_prog.C('systemLog', gen_prog.S('side effect'))
-            out.append(['expr', rnd.choice([gen_prog.U('!', side), gen_prog.U('-', side), gen_prog.B('+', gen_prog.N(1), side), gen_prog.B('&&', gen_prog.N(1), side),
+            out.append(['expr', rnd.choice([gen_prog.U('!', side), gen_prog.U('-', side), gen_prog.B('+', gen_prog.N(1), side), gen_prog.B('&&', gen_prog.N(1), side), gen_prog.B('+', side, gen_prog.N(0)),
+                                            gen_prog.B('==', side, gen_prog.V('va')), gen_prog.B('*', {'group': side}, gen_prog.U('-', gen_prog.N(2))),
                                             {'group': side}, gen_prog.U('!', {'group': gen_prog.B('||', gen_prog.N(0), side)})])])
         out.append(s)
     return out
